@@ -74,6 +74,8 @@ def main(argv: list[str] | None = None) -> int:
     ap.add_argument('--tier', default=os.environ.get('VERIF_TIER') or 'quick', choices=['quick', 'thorough'])
     ap.add_argument('--root', default=os.environ.get('FURAX_SA_ROOT') or '/repo')
     ap.add_argument('--no-evidence', action='store_true')
+    ap.add_argument('--rev', default=None, help='analyse the sources of a git revision of the repository (self-test only; implies --no-evidence)')
+    ap.add_argument('--apply', default=None, help='analyse the tree with a unified diff applied in memory (self-test only; implies --no-evidence)')
     ap.add_argument('--verbose', '-v', action='store_true')
     args = ap.parse_args(argv)
     pid = args.pid.upper()
@@ -98,7 +100,18 @@ def main(argv: list[str] | None = None) -> int:
 
 def _main(pid: str, args, seed: int, timer: report.Timer) -> int:
     mod = importlib.import_module(f'sa.props.{pid.lower()}')
-    world = World(args.root)
+    if args.rev:
+        from .history import world_at
+
+        world = world_at(args.root, args.rev)
+        args.no_evidence = True
+    elif args.apply:
+        from .history import world_with_patch
+
+        world = world_with_patch(args.root, args.apply)
+        args.no_evidence = True
+    else:
+        world = World(args.root)
     ck = run_property(pid, world)
     ncontrols, control_failures = _run_controls(pid, world, mod)
     extra: dict = {'controls_run': ncontrols, 'control_failures': control_failures, 'source_digest': world.digest()}
